@@ -52,8 +52,8 @@ def worker_main():
             x = sympy.cancel(sympy.together(x))
         if x.is_Rational:
             return '%d/%d' % (x.p, x.q) if x.q != 1 else str(x.p)
-        if x.free_symbols:
-            return 'symbolic'
+        if x.free_symbols or x.has(sympy.nan):
+            return 'symbolic'       # an unresolved symbol or an undefined value: never equal to a number
         return None
 
     def solve(cct, pts):
@@ -778,7 +778,7 @@ def run(chk, replay=None):
                     rnodes = [x for x in ret.split(' cpts')[0].replace('nodes', '').strip().split(',') if x]
                     symn = became_symbolic(orig_sol, rr['sol'], ren, rnodes)
                     if symn is not None:
-                        verdict = 'V:%s (contains an unresolved symbol after the rewrite)' % symn
+                        verdict = 'V:%s (undefined or symbolic after the rewrite)' % symn
                     for j in range(len(c['pts'])):
                         if verdict is not None:
                             break
@@ -831,6 +831,10 @@ def run(chk, replay=None):
                 if op == 'renumber' and any(x[0][0] in 'LC' and x[3] is not None and x[4] is None for x in orig_canon):
                     # Cpt._netsubs prints the absent initial condition of an L or C as the word `None`
                     flagged.append(('-', '-', 'absent-ic-printed'))
+                if op == 's_model' and any(x[0][0] == 'L' and x[4] not in (None, '0') for x in orig_canon):
+                    # RLC._s_model emits the inductor's initial-condition source `-L*i0` without the `s`
+                    # keyword: read back as a time-domain constant
+                    flagged.append(('-', '-', 's-free-ic-source'))
                 def stranded(canon_net):
                     """nodes that only open-circuit components (not counted by Node._count) still touch"""
                     cnt = {}
